@@ -99,5 +99,20 @@ PROPS["C10"] = dict(
                  "object keys are NFC-normalised by construction (known finding F10)"],
 )
 
+PROPS["C11"] = dict(
+    pkg="c11",
+    subs=[
+        dict(name="pool", test="TestPool", quick=1, thorough=1, shards=4),
+        dict(name="roundtrip", test="TestRoundTrip", quick=6000, thorough=300000, shards=8),
+        dict(name="json-as-yaml", test="TestJSONAsYAML", quick=6000, thorough=300000, shards=4),
+    ],
+    technique="rapid-generated data trees over an adversarial YAML string/key pool; encode->decode round trip against the generator's ground truth; differential JSON-decoder vs YAML-decoder on generated JSON texts",
+    level_text="exploration: every string of a ~300-entry adversarial pool (YAML 1.1/1.2 implicit-type spellings, indicators in first/inner/last position, document markers, block-scalar edge cases, control/format/non-BMP runes, blank edges) exhaustively as value, key, list element and nested; random trees mixing them; three encoder entry points (yaml.Encode, builtin yaml.Marshal, EncodeStream) and two decoders; JSON texts through yaml.Extract vs json.Extract vs encoding/json.",
+    level_note="trusted: dgen's independent CUE renderer and the cue.Value accessors used to read decoded data; Go encoding/json for the JSON half",
+    rule="roundtrip: tree from dgen (strings/keys from the YAML-hostile and CUE-hostile pools mixed with random runes, numbers of both kinds incl. 1.0, 1e3, big ints, -0) -> CUE value -> YAML -> decode -> must equal the tree (strings and keys identical, number value and int/float kind, order, nesting). Non-trivial = some string/key is in the hostile pool, has blank edges or a control/format character. "
+         "pool: each pool string alone in 5 positions (exhaustive). json-as-yaml: JSON text with random escapes/whitespace -> yaml.Extract must equal json.Extract and encoding/json; non-trivial = has an escape, tab/CR whitespace, or depth >= 2.",
+    assumptions=["strings are valid UTF-8 and NFC (known finding F10)"],
+)
+
 NOT_APPLICABLE = {}
 HOOK_COMMITS = []
